@@ -413,11 +413,25 @@ func (vm *VM) callNative(fn *NativeFunction, numVariadic int8, shift StackShift,
 	if asGoroutine {
 
 		// Start a goroutine.
-		if variadic {
-			go fn.value.CallSlice(args)
-		} else {
-			go fn.value.Call(args)
-		}
+		go func() {
+			// If fn is a Scriggo function called as a native function, it
+			// panics with the error of the context when the execution is
+			// stopped because the context has been canceled. In this case
+			// the goroutine simply terminates, as the other goroutines do.
+			defer func() {
+				if r := recover(); r != nil {
+					if err, ok := r.(error); ok && vm.env.ctx != nil && err == vm.env.ctx.Err() {
+						return
+					}
+					panic(r)
+				}
+			}()
+			if variadic {
+				fn.value.CallSlice(args)
+			} else {
+				fn.value.Call(args)
+			}
+		}()
 
 	} else {
 
